@@ -1,0 +1,39 @@
+//go:build verif
+
+// Contracts for the consul KV client and its in-memory mock (C07), checked by /verif/govc (comment-only file).
+
+package consul
+
+//@ # representation invariant of the mock: no nil entries, every modify index was handed out already
+//@ pred mockRep(m mockKV) = !isnil(m.kvps) && (forall k string :: in(k, m.kvps) ==> m.kvps[k] != nil && m.kvps[k].ModifyIndex <= m.current)
+//@ pred sameKVExcept(a map[string]*consul.KVPair, b map[string]*consul.KVPair, key string) = forall k string :: k != key ==> (in(k, a) <==> in(k, b)) && (in(k, a) ==> same(a[k], b[k]))
+//@
+//@ # the atomic compare-and-write step (the whole body runs under m.mtx)
+//@ func mockKV.CAS
+//@   property C07
+//@   requires mockRep(m) && p != nil && m.current < 18446744073709551615
+//@   ensures  r2 == nil
+//@   ensures  conflict: in(p.Key, old(m).kvps) && old(m).kvps[p.Key].ModifyIndex != p.ModifyIndex ==> !r0 && same(m.kvps, old(m).kvps) && m.current == old(m).current
+//@   ensures  success: !(in(p.Key, old(m).kvps) && old(m).kvps[p.Key].ModifyIndex != p.ModifyIndex) ==> r0 && m.current == old(m).current + 1 &&
+//@              in(p.Key, m.kvps) && m.kvps[p.Key] != nil && m.kvps[p.Key].Value == p.Value && m.kvps[p.Key].ModifyIndex == m.current
+//@   ensures  frame: sameKVExcept(m.kvps, old(m).kvps, p.Key)
+//@   ensures  rep: mockRep(m)
+//@
+//@ func mockKV.Put
+//@   property C07
+//@   requires mockRep(m) && p != nil && m.current < 18446744073709551615
+//@   ensures  m.current == old(m).current + 1 && in(p.Key, m.kvps) && m.kvps[p.Key] != nil && m.kvps[p.Key].Value == p.Value && m.kvps[p.Key].ModifyIndex == m.current
+//@   ensures  frame: sameKVExcept(m.kvps, old(m).kvps, p.Key)
+//@   ensures  rep: mockRep(m)
+//@
+//@ # the client retry loop: success is reported only after a successful conditional write or after the function declined;
+//@ # an error is reported only if no conditional write of this call succeeded
+//@ func Client.cas
+//@   property C07
+//@   ghost var wrote bool = false
+//@   ghost var declined bool = false
+//@   at after@f: declined := $r0 == nil && $r2 == nil
+//@   at after@consul.kv.CAS: wrote := $r0 && $r2 == nil
+//@   ensures  reported_success: result == nil ==> wrote || declined
+//@   ensures  reported_failure: result != nil ==> !wrote
+//@   loop 0 invariant !wrote
